@@ -1056,7 +1056,12 @@ func (m *Machine) strIndex(fr *frame, instr ssa.Instruction, s Str, idx Num) Val
 		fr.rtPanic(instr, "index out of range (string index "+it.SMT()+")")
 	}
 	ch := TStrAt(st, it)
-	return Num{t: TStrCode(ch)}
+	code := TStrCode(ch)
+	// strings reach the program through encoding/json (valid UTF-8); the term model has one code
+	// point per byte, so a byte inspected on its own is kept in the ASCII range (stated bound)
+	m.note("bound: bytes of symbolic strings that the code inspects individually (s[i]) are ASCII")
+	m.addPC(TCmp("<", code, TInt(128)))
+	return Num{t: code}
 }
 
 func (m *Machine) symSubstr(fr *frame, instr ssa.Instruction, s Str, lo, hi Value) Value {
